@@ -416,6 +416,13 @@ class Evaluator:
             pos = isinstance(op, (ast.Is, ast.Eq))
             if isinstance(lv, tuple) and isinstance(rv, tuple) and lv[0] == rv[0] == 'enum':
                 return (lv == rv) == pos
+            if isinstance(lv, bool) and isinstance(rv, bool):
+                return (lv == rv) == pos
+            if isinstance(lv, bool) and isinstance(rv, Unknown) or \
+                    isinstance(rv, bool) and isinstance(lv, Unknown):
+                u, b = (rv, lv) if isinstance(lv, bool) else (lv, rv)
+                t = bool(self.var(w, ('opaque', u.text), (False, True)))
+                return (t == b) == pos
             if isinstance(lv, tuple) and lv[0] == 'len' and isinstance(rv, int):
                 if rv == 0:
                     ne = bool(self.var(w, ('nonempty', lv[1]), (True, False)))
